@@ -82,6 +82,17 @@ CHECKS = {
          "exclusivity in fit and prediction design matrices.",
          "Reference model refmodels/segments.py (zoneinfo + Fractions, no pandas).",
          "DESIGN.md section 6, C18"),
+ "C01": ("model_checking",
+         "explicit-state BFS over {to_json->from_json, to_dict->from_dict, predict(R_i)} histories on fitted models of every family; exhaustive lattice of document-built models against a closed-form reference",
+         "B: for each fitted model (daily current/legacy/developer/custom maps/poor fit, billing, hourly non-solar/solar/robust scaler/other "
+         "binning/poor fit, CalTRACK hourly) a BFS over round-trip and predict operations, where a round trip replaces the state's object by the "
+         "loaded one; in every state the document, the prediction on each of 8 reporting sets (inside the range, 70-90F colder, hotter, NaN "
+         "temperature; with/without usage), timezone, warnings and disqualifications must equal the freshly fitted model's; the graphs close, so "
+         "the result holds for any number of round trips. A: daily/billing documents over the coefficient lattice x split layouts with mixed "
+         "shapes x 7 settings profiles: loaded, round-tripped twice, predicted, and compared with refmodels/curve evaluated from the JSON alone "
+         "(exact for unsmoothed shapes, 4 ulp for smoothed).",
+         "Finite set of baselines/profiles and lattice; 'same document' is JSON-value equality; deepcopy snapshots asserted faithful.",
+         "DESIGN.md section 6, C01"),
 }
 
 NOT_YET = {}
